@@ -375,6 +375,36 @@ func init() {
 		}
 		return BoolT(e.T == nil && target.T == nil)
 	})
+	reg("errors.As", func(m *Machine, fr *frame, a []Value) Value {
+		e := a[0].(Iface)
+		tgt := a[1].(Iface)
+		ptr, ok := tgt.V.(*Value)
+		if !ok || ptr == nil {
+			m.rtPanic("errors: target must be a non-nil pointer")
+		}
+		elemT := deref(tgt.T)
+		_, isIface := elemT.Underlying().(*types.Interface)
+		for depth := 0; depth < 16 && e.T != nil; depth++ {
+			if isIface {
+				if types.AssignableTo(e.T, elemT) {
+					*ptr = e
+					return TTrue
+				}
+			} else if types.Identical(e.T, elemT) {
+				*ptr = e.V
+				return TTrue
+			}
+			un := m.findMethod(e.T, "Unwrap")
+			if un == nil || un.Signature.Results().Len() != 1 {
+				break
+			}
+			if _, ok := un.Signature.Results().At(0).Type().Underlying().(*types.Interface); !ok {
+				break
+			}
+			e = m.call(fr, token.NoPos, un, []Value{e.V}).(Iface)
+		}
+		return TFalse
+	})
 	reg("errors.Unwrap", func(m *Machine, fr *frame, a []Value) Value {
 		e := a[0].(Iface)
 		if e.T == nil {
@@ -720,6 +750,12 @@ func (m *Machine) fmtValue(fr *frame, verb byte, v Iface, spec string) Str {
 		if verb == 'v' {
 			return CStr("map[...]")
 		}
+	}
+	if _, isTerm := v.V.(*Term); isTerm {
+		// message formatting of a symbolic scalar with a verb that is not modelled: placeholder text
+		// (formatting is not the subject of any property unless the harness inspects the text)
+		m.stubs[fmt.Sprintf("fmt placeholder for %%%s%c of a symbolic %s", spec, verb, v.T)]++
+		return CStr("<?>")
 	}
 	m.unsupported("fmt verb %%%s%c on %s (%T symbolic)", spec, verb, v.T, v.V)
 	return Str{}
